@@ -65,6 +65,8 @@ Explain(full) ==
       [] Ev.op = "clone" ->
             /\ CloneS(Ev.d, Ev.rs, Ev.e) /\ uid' = Ev.post.uid /\ UPart(full, CloneU(Ev.d, Ev.rs, Ev.e))
             /\ Ev.ret = CloneRet(Ev.rs) /\ PostMatches
+      [] Ev.op = "rawtrip" ->
+            /\ RawTripS(Ev.d) /\ UPart(full, RawTripU(Ev.d)) /\ Ev.outcome = "ok" /\ PostMatches
       [] Ev.op = "setref" ->
             /\ SetRefS(Ev.r, Ev.s, Ev.v) /\ UPart(full, UidUnchanged) /\ PostMatches
       \* a DOM handed over by a file reader: it must be a well-formed forest whose UniqueIds are
